@@ -639,10 +639,11 @@ def parse_match_list_add():
                  ".binary_search_by_key(&new_match.range.start,|m|{m.range.start})"):
         if need not in b:
             raise TranslateError("MatchList::add changed (missing `%s`)" % need)
-    tm = re.search(r"Some\(last\)ifnew_match\.range\.start==last\.range\.start=>\{ifreplace_if_longer\{last\.range\.end=new_match\.range\.end;(last\.base=new_match\.base;)?\}false\}", b)
+    tm = re.search(r"Some\(last\)ifnew_match\.range\.start==last\.range\.start=>\{ifreplace_if_longer(&&last\.range\.end<new_match\.range\.end)?\{last\.range\.end=new_match\.range\.end;(last\.base=new_match\.base;)?\}false\}", b)
     if not tm:
         raise TranslateError("MatchList::add: the `same start as the last match` arm is not understood")
-    tail_base = tm.group(1) is not None
+    tail_longer = tm.group(1) is not None
+    tail_base = tm.group(2) is not None
     head = "Ok(index)ifreplace_if_longer=>{letexisting_match=&mutself.matches[index];"
     if head not in b:
         raise TranslateError("MatchList::add: the binary-search replace arm is not understood")
@@ -655,7 +656,7 @@ def parse_match_list_add():
         bs_base = False   # an unconditional base assignment after max() would not follow the longer match either
     else:
         raise TranslateError("MatchList::add: the binary-search replace arm is not understood: " + rest[:160])
-    return tail_base, bs_base
+    return tail_base, bs_base, tail_longer
 
 
 def main():
@@ -712,7 +713,7 @@ def main():
         fb = re.sub(r"\s+", "", strip_comments(fn_body(ctx_text, "first_use_in_scan")))
         if fb != "last_scan_id.with(|id|id.replace(self.scan_id)!=self.scan_id)":
             raise TranslateError("ScanContext::first_use_in_scan changed: " + fb[:200])
-    ml_tail_base, ml_bs_base = parse_match_list_add()
+    ml_tail_base, ml_bs_base, ml_tail_longer = parse_match_list_add()
     # blocks::Scanner::scan: which listed matches get a snippet after a block
     bsn = re.sub(r"\s+", "", strip_comments(fn_body(blk_text, "scan", "blocks::Scanner::scan", start=blk_text.find("pub fn scan("))))
     if "match_list.iter().filter(|match_|{match_.base==base&&match_.range.end<=base+data.len()})" in bsn:
@@ -781,6 +782,8 @@ Definition pm_clear_under : pm_branch := {pm_under}.
    the `same start as the last match` arm takes the new end; the binary-search arm takes it when longer.
    Does the listed match also take the base of the block the new match was found in? *)
 Definition ml_tail_arm_moves_base : bool := {str(ml_tail_base).lower()}.
+(* does the `same start as the last match` arm compare the ends (replace only when longer) or overwrite the end? *)
+Definition ml_tail_arm_only_if_longer : bool := {str(ml_tail_longer).lower()}.
 Definition ml_search_arm_moves_base : bool := {str(ml_bs_base).lower()}.
 (* blocks::Scanner::scan stores a snippet for the listed matches whose base is the block's base
    (and, since the shorter-block fix, that end inside the block) *)
